@@ -106,9 +106,20 @@ Qed.
 
 Definition seg_ok (c : cell) (group : option string) (conv : bool) (ty : option string) : bool :=
   match opt_group group with
-  | Some g => negb (is_default g) && role_free c g (tag_of conv ty)
+  | Some g => group_ok c g (tag_of conv ty)
   | None => true
   end.
+
+Lemma group_ok_spec : forall c g tag, group_ok c g tag = true ->
+  (is_default g = false /\ role_free c g tag = true) \/ (g = "all" /\ tag <> None) \/
+  (exists t, g = dname t /\ tag = Some t).
+Proof.
+  intros c g tag H. unfold group_ok in H. destruct (String.eqb g "all") eqn:Ea.
+  - apply String.eqb_eq in Ea. right. left. split; [exact Ea|]. destruct tag; [discriminate | discriminate].
+  - destruct (is_default g) eqn:Ed.
+    + destruct tag as [t|]; [|discriminate]. apply String.eqb_eq in H. right. right. exists t. split; [exact H | reflexivity].
+    + left. split; [reflexivity | exact H].
+Qed.
 
 Lemma Inv_add_segment : forall c prox seg_id name parent frac group conv ty reord opt c',
   Inv c -> seg_ok c group conv ty = true ->
@@ -121,30 +132,33 @@ Proof.
   set (S' := (segs c ++ [s])%list) in *.
   set (G' := seg_groups true (groups c) (opt_group group) i tag reord) in *.
   set (c1 := mkCell S' G' (props c)) in *.
-  assert (Hgrp : forall g, sgrp s = Some g -> g <> "" /\ is_default g = false /\ role_free c g (stag s) = true).
-  { intros g E. simpl in E. unfold seg_ok in Hok. rewrite E in Hok. apply andb_true_iff in Hok. destruct Hok as [H1 H2].
-    split; [eapply opt_group_nonempty; exact E|]. split; [apply negb_true_iff; exact H1|]. simpl. rewrite Htag. exact H2. }
+  assert (Hgok : forall g, sgrp s = Some g -> g <> "" /\ group_ok c g (stag s) = true).
+  { intros g E. simpl in E. unfold seg_ok in Hok. rewrite E in Hok.
+    split; [eapply opt_group_nonempty; exact E|]. simpl. rewrite Htag. exact Hok. }
   assert (HsS : In s S') by (unfold S'; apply in_or_app; right; left; reflexivity).
   assert (Hso' : Sound S' (groups c)) by (eapply Sound_mono; [|exact Hso]; unfold S'; apply incl_appl, incl_refl).
   destruct (seg_groups_inv S' (groups c) s reord HG Hso' HsS) as [HG1 [Hso1 [Hgr1 Hnew]]].
-  { intros g E. destruct (Hgrp g E) as [A [B _]]. split; assumption. }
+  { intros g E. destruct (Hgok g E) as [A B]. split; [exact A|].
+    destruct (group_ok_spec _ _ _ B) as [[D _]|[[Ea Et]|[t [Ed Et]]]]; [left; exact D | right; left; split; assumption | right; right; exists t; split; assumption]. }
   change (seg_groups true (groups c) (sgrp s) (sid s) (stag s) reord) with G' in *.
   assert (HI1 : Inv c1).
   { split; [|split; [exact HG1 | split; [exact Hso1|]]].
     - unfold c1, S'. apply SInv_app; [exact HS | exact Hfresh | exact Hpar |].
-      intros g E. apply (Hgrp g E).
+      intros g E Hd. destruct (Hgok g E) as [_ B]. unfold group_ok in B.
+      destruct (String.eqb g "all") eqn:Ea; [apply String.eqb_eq in Ea; subst g; discriminate|].
+      rewrite Hd in B. exact B.
     - intros x t Hx Ht. unfold c1 in Hx; simpl in Hx. unfold S' in Hx. apply in_app_or in Hx.
       destruct Hx as [Hx|[Hx|[]]].
       + destruct (Hco x t Hx Ht) as [A B]. split; eapply preach_grow; eassumption.
       + subst x. apply Hnew. exact Ht. }
   assert (Hok1 : seg_ok c1 group conv ty = true).
   { unfold seg_ok in *. destruct (opt_group group) as [g|] eqn:Eg; [|reflexivity].
-    apply andb_true_iff in Hok. destruct Hok as [H1 H2]. apply andb_true_iff. split; [exact H1|].
-    unfold role_free in *. unfold c1, S'; simpl. rewrite forallb_app. rewrite H2. simpl.
+    unfold group_ok in *. destruct (String.eqb g "all"); [exact Hok|]. destruct (is_default g); [exact Hok|].
+    unfold role_free in *. unfold c1, S'; simpl. rewrite forallb_app. rewrite Hok. simpl.
     rewrite String.eqb_refl. rewrite Htag. destruct (tag_of conv ty) as [t|]; [destruct t|]; reflexivity. }
   destruct opt.
   - split; [eapply Inv_optimise; eassumption|].
-    destruct (optimise_shape _ _ Hrest) as [Es _]. unfold seg_ok, role_free in *. rewrite Es. exact Hok1.
+    destruct (optimise_shape _ _ Hrest) as [Es _]. unfold seg_ok, group_ok, role_free in *. rewrite Es. exact Hok1.
   - simpl in Hrest. rewrite Hrest. split; assumption.
 Qed.
 
@@ -160,7 +174,7 @@ Proof.
 Qed.
 
 Lemma seg_ok_same_segs : forall c c' group conv ty, segs c' = segs c -> seg_ok c group conv ty = seg_ok c' group conv ty.
-Proof. intros c c' group conv ty E. unfold seg_ok, role_free. rewrite E. reflexivity. Qed.
+Proof. intros c c' group conv ty E. unfold seg_ok, group_ok, role_free. rewrite E. reflexivity. Qed.
 
 Lemma Inv_add_unbranched : forall c np parent frac group conv ty reord opt c',
   Inv c -> seg_ok c group conv ty = true ->
@@ -197,10 +211,10 @@ Proof.
   intros c o c' HI Hok H. destruct o; simpl in H.
   - eapply Inv_add_segment; [exact HI | exact Hok | exact H].
   - eapply Inv_add_unbranched; [exact HI | exact Hok | exact H].
-  - inversion H; subst. simpl in Hok. apply andb_true_iff in Hok. destruct Hok as [_ Hne].
-    apply Inv_add_group; [exact HI|]. apply String.eqb_neq. apply negb_true_iff. exact Hne.
-  - inversion H; subst. simpl in Hok. apply andb_true_iff in Hok. destruct Hok as [_ Hne].
-    apply Inv_add_group; [exact HI|]. apply String.eqb_neq. apply negb_true_iff. exact Hne.
+  - inversion H; subst. simpl in Hok.
+    apply Inv_add_group; [exact HI|]. apply String.eqb_neq. apply negb_true_iff. exact Hok.
+  - inversion H; subst. simpl in Hok.
+    apply Inv_add_group; [exact HI|]. apply String.eqb_neq. apply negb_true_iff. exact Hok.
   - inversion H; subst. apply Inv_reorder. exact HI.
   - eapply Inv_optimise; eassumption.
   - eapply Inv_set_prop; eassumption.
@@ -259,7 +273,7 @@ Proof.
         - exfalso. rewrite R in Hind. simpl in Hind. discriminate Hind.
         - exfalso. rewrite R in Hind. rewrite dname_default in Hind. discriminate Hind. }
       exists s. split; [exact Hs|]. split; [exact Hsid|].
-      rewrite (Hroles s s' i Hs Hs' Hsg Hgrp'). exact R'.
+      rewrite (Hroles s s' i Hs Hs' Hind Hsg Hgrp'). exact R'.
     + destruct (lookup_some _ _ _ Hli) as [HgiG Hgii]. rewrite <- Hgii in Hind. rewrite (Hu gi HgiG Hind) in Hj. contradiction.
     + discriminate.
   - congruence.
